@@ -30,7 +30,8 @@ CONSTANTS MaxHist,        \* length of the call histories
           ParseDocs,      \* sources the generator parses             (subset of PoolSrc)
           InlineSS,       \* stylesheets passed inline to transform() (subset of PoolSS)
           InlineSrc,      \* sources passed inline                    (subset of PoolSrc)
-          Vals            \* parameter values used                    (subset of PoolPVals)
+          Vals,           \* parameter values used                    (subset of PoolPVals)
+          Fns             \* functions installed / uninstalled        (subset of PoolFNames)
 
 VARIABLES m, resid, prev, hist, last, acc
 
@@ -40,7 +41,7 @@ NoResid == [ss |-> "none", class |-> "none", via |-> "none", src |-> "none"]
 (* prev = resid before the last call: kept in the view when that call was a transformation (the observer of a leak) *)
 (* and ran one of the state-heavy stylesheets S1..S6, SD1, SD2 on a well-formed source                                        *)
 Observer(c) == /\ c.op = "Transform"
-               /\ DocOf(c.ss, liveSS) \in {"S1", "S2", "S3", "S4", "S5", "S6", "S7", "S8", "SD1", "SD2"}
+               /\ DocOf(c.ss, liveSS) \in {"S1", "S2", "S3", "S4", "S5", "S6", "S7", "S8", "S9", "SD1", "SD2"}
                /\ DocOf(c.src, liveSrc) # "DX"
 View == <<params, fns, liveSS, nSS, liveSrc, nSrc, lastError, m, resid,
           IF Observer(LastCall) THEN prev ELSE NoResid, LastCall>>
@@ -97,7 +98,7 @@ MCNext ==
      \/ \E k \in PoolPNames, v \in Vals : /\ v # params[k]
                                           /\ Plain(ISetParam(m, k, v))
      \/ (m.holders # MInit.holders /\ Plain(IClearParams(m)))
-     \/ \E f \in PoolFNames : IF fns[f] THEN Plain(IUninstallFn(m, f)) ELSE Plain(IInstallFn(m, f))
+     \/ \E f \in Fns : IF fns[f] THEN Plain(IUninstallFn(m, f)) ELSE Plain(IInstallFn(m, f))
      \/ \E h \in DOMAIN liveSS : Plain(IDestroySS(m, h))
      \/ \E h \in DOMAIN liveSrc : Plain(IDestroySrc(m, h))
      \/ \E ssRef \in SSRefs, srcRef \in SrcRefs : DoTransform(ssRef, srcRef)
